@@ -14,10 +14,13 @@ import (
 )
 
 type Case struct {
-	Cmp     string      `json:"cmp"` // "semver" | "int" | "lex"
-	Version string      `json:"version"`
-	Caps    [][][2]string `json:"caps"` // per capability: list of [lower, upper]
-	Odd     bool        `json:"odd,omitempty"` // last range of cap 0 given as a single trailing lower bound
+	Cmp     string        `json:"cmp"` // "semver" | "int" | "lex"
+	Version string        `json:"version"`
+	Caps    [][][2]string `json:"caps"`          // per capability: list of [lower, upper]
+	Odd     bool          `json:"odd,omitempty"` // last range of cap 0 given as a single trailing lower bound
+	// Reeval: Caps[0] and Caps[1] are two successive range lists of ONE capability; ONE Version object
+	// is evaluated under the first, the capability's ranges are replaced, and it is evaluated again
+	Reeval bool `json:"reeval,omitempty"`
 }
 
 var h *hlib.H
@@ -184,8 +187,8 @@ const (
 	mustFalse verdict = iota
 	mustTrue
 	mustError
-	unspecified       // both-bounds-empty range decides
-	errorOrTrue       // ill-formed range present but possibly not evaluated
+	unspecified // both-bounds-empty range decides
+	errorOrTrue // ill-formed range present but possibly not evaluated
 )
 
 // refCap computes what the statement demands for version v and ranges rs,
@@ -315,7 +318,63 @@ func exec(c Case) (o obs, pan bool, msg string) {
 	return
 }
 
+// runReeval: a Version that already carries results is evaluated again after the ranges changed;
+// what it reports must be what a fresh Version reports under the new ranges.
+func runReeval(c Case) {
+	h.Eval(true)
+	h.Section("re-evaluation", 1)
+	flat := func(rs [][2]string) []string {
+		var a []string
+		for _, r := range rs {
+			a = append(a, r[0], r[1])
+		}
+		return a
+	}
+	var has1, has2 bool
+	var err1, err2 error
+	pan, msg := hlib.Catch(func() {
+		cp := capability.NewCapability("cap", flat(c.Caps[0])...)
+		t := capability.Target{Capabilities: []*capability.Capability{cp}}
+		if c.Cmp == "int" {
+			t.VersionComparer = intComparer
+		}
+		v := capability.NewDefaultVersion(c.Version)
+		err1 = t.SetCapabilities(v)
+		has1 = v.Has(cp)
+		cp.VersionRanges = capability.NewCapability("cap", flat(c.Caps[1])...).VersionRanges
+		err2 = t.SetCapabilities(v)
+		has2 = v.Has(cp)
+	})
+	if pan {
+		h.Violate("C19|reeval|panic", fmt.Sprintf("%+v: %s", c, msg), c)
+		return
+	}
+	_ = has1
+	if err1 != nil {
+		return // the first evaluation is an ordinary case of its own
+	}
+	if len(c.Caps[1]) == 0 {
+		h.Outcome("unspecified") // all ranges removed after an evaluation: nothing is evaluated, the statement does not say what remains
+		return
+	}
+	vd, why := refCap(c.Cmp, c.Version, c.Caps[1])
+	switch {
+	case vd == mustTrue && (err2 != nil || !has2):
+		h.Violate("C19|reeval|missing", fmt.Sprintf("%+v: after the ranges were replaced the version is %s, the re-evaluated Version says Has=%v err=%v", c, why, has2, err2), c)
+	case vd == mustFalse && (err2 != nil || has2):
+		h.Violate("C19|reeval|stale", fmt.Sprintf("%+v: after the ranges were replaced the version is %s, the re-evaluated Version still says Has=%v (err=%v)", c, why, has2, err2), c)
+	case vd == mustError && err2 == nil:
+		h.Violate("C19|reeval|silent-answer", fmt.Sprintf("%+v: %s, the re-evaluation returned no error (Has=%v)", c, why, has2), c)
+	default:
+		h.Outcome("reeval-ok")
+	}
+}
+
 func run(c Case) {
+	if c.Reeval {
+		runReeval(c)
+		return
+	}
 	// NewCapability pairs strings; a both-empty pair in the middle is kept as a range.
 	o, pan, msg := exec(c)
 	nontrivial := false
@@ -589,6 +648,18 @@ func main() {
 			emit("lex", [][2]string{r}, versions, false)
 		}
 		h.Section("cross-comparer", 4)
+	}
+	// a Version object evaluated twice: every ordered pair of single ranges (and pairs of ranges) of the sub-grid
+	for i, r1 := range sr {
+		if !h.Mine(i + 3) {
+			continue
+		}
+		for _, r2 := range sr {
+			for _, v := range subV {
+				run(Case{Cmp: "semver", Version: v, Caps: [][][2]string{{r1}, {r2}}, Reeval: true})
+				run(Case{Cmp: "semver", Version: v, Caps: [][][2]string{{r1, r2}, {r2}}, Reeval: true})
+			}
+		}
 	}
 	// custom comparer: integers
 	ib := []string{"", "1", "2", "3", "5", "10", "x"}
